@@ -277,6 +277,7 @@ def rq_select_expr(rq):
 class Oracle:
     def __init__(self):
         self.con = sqlite3.connect(":memory:")
+        self.con.create_function("REGEXP", 2, lambda a, b: None)     # text matching is outside the value model
         self.con.execute("CREATE TABLE t (a INTEGER, b INTEGER, c INTEGER)")
         self.rows = list(itertools.product(DOMAIN, repeat=NCOLS))
         self.con.executemany("INSERT INTO t VALUES (?,?,?)", self.rows)
